@@ -1,4 +1,6 @@
 import KoordVerif.Proofs.C04Permit
+import KoordVerif.Proofs.C04ExtConc
+import KoordVerif.Proofs.C04ExtGroup
 /-
 C04 — gang scheduling is all-or-nothing across the whole gang group (property theorems).
 
@@ -29,6 +31,17 @@ counts (waiting, or waiting + bound under waiting-and-running).
    permit_snapshot              each gang was valid at the moment it was inspected
    permit_snapshot_atomic       with no interleaved event the small-step loop is the atomic test
    permit_race_witness          a racing delete can make the atomic statement false at return
+ E. goroutines racing on one gang, at critical-section granularity (Proofs/C04ExtConc.lean)
+   setChild_atomic_safe         setChild = ONE critical section (a regenerated fact): under EVERY interleaving of
+                                informer / scheduling / binding goroutines no member is ever in two sets
+   setChild_split_counterexample   setChild split into decide | insert: an interleaving with Permit leaves the pod
+                                pending AND waiting (and with PostBind pending AND bound)
+   setChild_split_sequentially_same   ... although the two shapes agree whenever nothing runs in between
+ F. the groups annotation (parsing glue in the model: parseGroups / groupOrSelf; Proofs/C04ExtGroup.lean)
+   groups_empty_shapes_mean_self   absent / "" / null / [] / not JSON  =>  the gang is a group of its own
+   groups_list_taken_literally     a non-empty JSON list is the group (sorted)
+   group_never_empty            after ANY history no cached gang has an empty group: no vacuous group loop
+   permit_release_own_min       a gang that is a group of its own is released only when IT holds its minimum
 -/
 namespace KoordVerif.C04
 
@@ -469,5 +482,88 @@ theorem permit_race_witness :
     let r := inspectLoop s1 [0, 1] [id, fun s => podDel s 0 0]
     r.1 = true ∧ allValid r.2.1 [0, 1] = false := by
   decide
+
+/-! ## E. goroutines racing on one gang (critical-section granularity) -/
+
+/-- Informer, scheduling and binding goroutines, any number of them, each making any sequence of
+    calls; `setChild` is ONE critical section (`start 1`; Ties: `tie_setChild_sections`).  Under EVERY
+    schedule of the critical sections that respects the framework contract at the instant of each
+    addAssumedPod (Permit is not run for a pod in the bound set), at EVERY instant no member is in two
+    of pending / waiting / bound.  (Schedules may stop anywhere: the statement is about every prefix.) -/
+theorem setChild_atomic_safe (g : PodSets) (progs : List (List Call)) (sched : List Nat)
+    (hg : g.Disj) (hc : (start 1 g progs).contract sched = true) :
+    ((start 1 g progs).run sched).g.Disj :=
+  run_whole_disj _ sched (start_one_allWhole g progs) hg hc
+
+/-- The same statement is FALSE when setChild is two critical sections (decide not-waiting /
+    not-bound; unlock; re-lock; insert into PendingChildren): informer `decide`, scheduler
+    `addAssumedPod`, informer `insert` leaves pod 0 pending AND waiting. -/
+theorem setChild_split_counterexample :
+    ¬ ∀ (g : PodSets) (progs : List (List Call)) (sched : List Nat), g.Disj →
+        (start 2 g progs).contract sched = true → ((start 2 g progs).run sched).g.Disj := by
+  intro h
+  have hd : splitG0.Disj := by
+    simp [PodSets.Disj, PodSets.D1, PodSets.D2, PodSets.D3, splitG0]
+  have hc : (start 2 splitG0 splitProgs).contract splitSched = true := by decide
+  have hr : ((start 2 splitG0 splitProgs).run splitSched).g =
+      { children := [0], pending := [0], waiting := [0], bound := [] } := by decide
+  have := h splitG0 splitProgs splitSched hd hc
+  rw [hr] at this
+  exact this.1 0 (by simp) (by simp)
+
+/-- the same race against PostBind (a re-created pod whose previous incarnation is being bound):
+    pending AND bound -/
+example : ((start 2 splitG0 splitProgsBind).run splitSched).g =
+    { children := [0], pending := [0], waiting := [], bound := [0] } := by decide
+
+/-- the one-section shape under the very same schedule: waiting only -/
+example : ((start 1 splitG0 splitProgs).run splitSched).g =
+    { children := [0], pending := [], waiting := [0], bound := [] } := by decide
+
+/-- Why no sequential test can see the split: run back to back, the two sections ARE setChild. -/
+theorem setChild_split_sequentially_same (g : PodSets) (p : Pod) (n l : Bool) :
+    ((Sec.setChildInsert p).exec ((Sec.setChildDecide p n).exec g l).1 ((Sec.setChildDecide p n).exec g l).2).1
+      = g.setChild p n := by
+  simp only [Sec.exec, PodSets.setChild]
+  by_cases h : n = false ∧ p ∉ g.waiting ∧ p ∉ g.bound
+  · simp [h]
+  · simp [h]
+
+/-! ## F. the groups annotation -/
+
+/-- every shape of the groups annotation that does not name anybody — no annotation, the empty
+    string, `null`, `[]`, an empty list, not JSON — makes the gang a gang group of its own -/
+theorem groups_empty_shapes_mean_self (g : Gang) (c : Cfg) (b : Bool) (h : c.gshape ≠ 4 ∨ c.group = []) :
+    (applyCfg g c b).group = [g.id] := by
+  have e : groupOrSelf g.id (parseGroups c.gshape c.group) = [g.id] := by
+    unfold parseGroups
+    split <;> simp_all [groupOrSelf]
+  simp only [applyCfg, e]
+  simp [sortNat, insSorted]
+
+/-- a non-empty JSON list is taken literally (sorted: util.GetGangGroupId sorts the gang's slice in place) -/
+theorem groups_list_taken_literally (g : Gang) (c : Cfg) (b : Bool) (h : c.gshape = 4) (hne : c.group ≠ []) :
+    (applyCfg g c b).group = sortNat c.group := by
+  have e : groupOrSelf g.id (parseGroups c.gshape c.group) = c.group := by
+    rw [h]
+    cases hc : c.group with
+    | nil => exact absurd hc hne
+    | cons x xs => simp [parseGroups, groupOrSelf]
+  simp only [applyCfg, e]
+
+/-- After ANY history no cached gang has an empty gang group: the loops "for every gang of the group"
+    (Permit, rejectGangGroup, AllowGangGroup) are never vacuous. -/
+theorem group_never_empty (ops : List Op) : ∀ g ∈ (run init ops).gangs, g.group ≠ [] :=
+  groupNE_run init ops (fun g hg => by simp [init] at hg)
+
+/-- a gang that is a group of its own is released only when IT holds its minimum (or was satisfied before) -/
+theorem permit_release_own_min (s : State) (p : Pod) (id : GangId) (g : Gang)
+    (hg : findGang s.gangs id = some g) (hself : g.group = [id]) (hv : (permit s p id).2.verdict = 0) :
+    (g.addAssumed p).init = true ∧
+      (infoSat (permit s p id).1 g.info = false → g.min ≤ (held (g.addAssumed p) : Int)) := by
+  obtain ⟨gh, e, hi, hm⟩ := permit_release_min_held s p id g hg hv id (by rw [hself]; simp)
+  rw [permit_gang_after s p id g hg] at e
+  cases e
+  exact ⟨hi, hm⟩
 
 end KoordVerif.C04
